@@ -624,6 +624,9 @@ func c08engCases(tier string) []c08engCase {
 		if m&4 != 0 {
 			res["u"] = 7
 		}
+		if m&1 != 0 {
+			res["rs"] = (m >> 1) & 1 // a string: "" or "x"
+		}
 		for o := 0; o < 4; o++ {
 			objs := map[string]int{}
 			if o&1 != 0 {
@@ -715,7 +718,8 @@ func c08engCases(tier string) []c08engCase {
 	loopOf := func(xs ...int) []c08ans {
 		var h []c08ans
 		for _, x := range xs {
-			h = append(h, c08okAns(map[string]int{"x": x}, nil))
+			// rs: a string result rewritten in every round, every other time with the empty string
+			h = append(h, c08okAns(map[string]int{"x": x, "rs": x % 2}, nil))
 		}
 		return h
 	}
@@ -781,7 +785,7 @@ func c08engXMLShape(shape string, td int) (string, map[string]string) {
 	g := eng.NewGraph()
 	st := g.Add("startEvent", "start", "")
 	t := g.Add("serviceTask", "T", "")
-	t.Results = []string{"x", "r1"}
+	t.Results = []string{"x", "r1", "rs"}
 	t.HasTaskDef = true
 	t.Retries = td
 	g.Connect(st, t, nil)
@@ -827,7 +831,7 @@ func c08engXML(td int) (string, map[string]string) {
 <bpmn:startEvent id="start"><bpmn:outgoing>f1</bpmn:outgoing></bpmn:startEvent>
 <bpmn:serviceTask id="T"><bpmn:extensionElements>
 ` + fmt.Sprintf(`<olive:taskDefinition type="service" retries="%d"/>`, td) + `
-<olive:results><olive:field name="r1" type="integer"/><olive:field name="r2" type="integer"/></olive:results>
+<olive:results><olive:field name="r1" type="integer"/><olive:field name="r2" type="integer"/><olive:field name="rs" type="string"/></olive:results>
 <olive:dataOutput name="o1" targetRef="o1"/>
 </bpmn:extensionElements><bpmn:incoming>f1</bpmn:incoming><bpmn:outgoing>f2</bpmn:outgoing></bpmn:serviceTask>
 <bpmn:exclusiveGateway id="X" default="f5"><bpmn:incoming>f2</bpmn:incoming><bpmn:outgoing>f3</bpmn:outgoing><bpmn:outgoing>f4</bpmn:outgoing><bpmn:outgoing>f5</bpmn:outgoing></bpmn:exclusiveGateway>
@@ -873,7 +877,7 @@ func c08doOpts(a c08ans) []bpmn.DoOption {
 	if a.results != nil {
 		res := map[string]any{}
 		for k, v := range a.results {
-			res[k] = v
+			res[k] = c08resultValue(k, v)
 		}
 		opts = append(opts, bpmn.DoWithResults(res))
 	}
@@ -929,7 +933,7 @@ func c08engAnswer(in *eng.Inst, q *eng.Req, a c08ans) {
 	if a.results != nil {
 		res := map[string]any{}
 		for k, v := range a.results {
-			res[k] = v
+			res[k] = c08resultValue(k, v)
 		}
 		opts = append(opts, bpmn.DoWithResults(res))
 	}
@@ -944,6 +948,26 @@ func c08engAnswer(in *eng.Inst, q *eng.Req, a c08ans) {
 	if !eng.DoWithDeadline(q.Trace, 3*time.Second, opts...) {
 		in.Note("obs ret do %s %d blocked", q.Node, q.Occ)
 	}
+}
+
+// c08resultValue: the declared result field `rs` is answered with a STRING — v letters x, so 0 is the empty string (a value
+// like any other: a name that is answered "" holds "" afterwards); every other name is answered with the integer.
+func c08resultValue(name string, v int) any {
+	if name == "rs" {
+		return strings.Repeat("x", v)
+	}
+	return v
+}
+
+// c08decodeVars turns `rs=xx` of the rendered variables back into the number the models carry
+func c08decodeVars(vars string) string {
+	parts := strings.Split(vars, ",")
+	for i, p := range parts {
+		if strings.HasPrefix(p, "rs=") && strings.Trim(p[3:], "x") == "" {
+			parts[i] = fmt.Sprintf("rs=%d", len(p)-3)
+		}
+	}
+	return strings.Join(parts, ",")
 }
 
 func c08plan(h []c08ans) string {
@@ -1055,7 +1079,7 @@ func c08engRun(out *rec.Out, c c08engCase, stats map[string]int) {
 		out.Line("%s", l)
 	}
 	out.Line("c08 items %s", c08itemsText(in.Proc.Locator().CloneItems(data.LocatorObject)))
-	out.Line("obs final complete=%d vars=%s", rec.B(complete), in.Vars())
+	out.Line("obs final complete=%d vars=%s", rec.B(complete), c08decodeVars(in.Vars()))
 	in.Stop(2 * time.Second)
 	stats[fmt.Sprintf("requests_T_%d", nT)]++
 }
